@@ -1313,6 +1313,104 @@ brk("B25g", "draft7.json: multipleOf may be 0",
         },''')], {"C09": "R9.1|", "C03": "R3.1|"})
 
 
+# ---------------------------------------------------------------- round 2 (after the second batch of seeded mutants)
+keep("P40", "FormatChecker.__init__: subset table built with a for loop",
+     [(F, """            self.checkers = dict((k, self.checkers[k]) for k in formats)""",
+       """            table = {}
+            for k in formats:
+                table[k] = self.checkers[k]
+            self.checkers = table""")], ["C12", "C16", "C13"])
+
+keep("P41", "equal: member-wise and correct (presence tested, lengths compared)",
+     [(U, """    return unbool(one) == unbool(two)
+""", """    if isinstance(one, list) and isinstance(two, list):
+        return len(one) == len(two) and all(equal(i, j) for i, j in zip(one, two))
+    if isinstance(one, dict) and isinstance(two, dict):
+        return len(one) == len(two) and all(
+            key in two and equal(value, two[key]) for key, value in one.items()
+        )
+    return unbool(one) == unbool(two)
+""")], ["C08", "C01", "C03"])
+
+keep("P42", "json_path: type(elem) is int, f-strings",
+     [(E, """            if isinstance(elem, int):
+                path += '[' + str(elem) + ']'
+            else:
+                path += '.' + elem""", """            if type(elem) is not int:
+                path += f'.{elem}'
+            else:
+                path += f'[{elem}]'""")], ["C06"])
+
+keep("P43", "extends_draft3: array form copied into a list first",
+     [(LV, """    for index, subschema in enumerate(extends):
+        for error in validator.descend(instance, subschema, schema_path=index):""",
+       """    extends = list(extends)
+    for index, subschema in enumerate(extends):
+        for error in validator.descend(instance, subschema, schema_path=index):""")], ["C06", "C01", "C05"])
+
+brk("B100", "extends_draft3: object form wrapped into a list (spurious index 0 in schema_path)",
+    [(LV, """        for error in validator.descend(instance, extends):
+            yield error
+        return
+""", """        extends = [extends]
+""")], {"C06": "R6.2|"})
+
+brk("B101", "json_path: digit-only property names rendered as indices",
+    [(E, """            if isinstance(elem, int):
+                path += '['""", """            if isinstance(elem, int) or elem.isdigit():
+                path += '['""")], {"C06": "R6.7|"})
+
+brk("B102", "json_path renders the relative path",
+    [(E, """        for elem in self.absolute_path:
+            if isinstance(elem, int):""", """        for elem in self.path:
+            if isinstance(elem, int):""")], {"C06": "R6.7|"})
+
+brk("B103", "equal: member-wise with get() default (absent member == null member)",
+    [(U, """    return unbool(one) == unbool(two)
+""", """    if isinstance(one, dict) and isinstance(two, dict):
+        return len(one) == len(two) and all(
+            equal(value, two.get(key)) for key, value in one.items()
+        )
+    return unbool(one) == unbool(two)
+""")], {"C08": "R8.4|"})
+
+brk("B104", "equal: member-wise zip without length comparison",
+    [(U, """    return unbool(one) == unbool(two)
+""", """    if isinstance(one, list) and isinstance(two, list):
+        return all(equal(i, j) for i, j in zip(one, two))
+    return unbool(one) == unbool(two)
+""")], {"C08": "R8.4|"})
+
+brk("B105", "FormatChecker.__init__ walks `formats` twice",
+    [(F, """            self.checkers = dict((k, self.checkers[k]) for k in formats)""",
+      """            unknown = set(formats).difference(self.checkers)
+            if unknown:
+                raise KeyError(*sorted(unknown))
+            self.checkers = dict((k, self.checkers[k]) for k in formats)""")], {"C12": "R12.7|"})
+
+
+brk("B106", "email: find('@') > 0",
+    [(F, """    return "@" in instance
+""", """    return instance.find("@") > 0
+""")], {"C13": "R13.5|"})
+
+keep("P44", "email: find('@') >= 0 through a local",
+     [(F, """    return "@" in instance
+""", """    at = instance.find("@")
+    return at != -1
+""")], ["C13", "C12", "C03"])
+
+keep("P45", "email: count('@') > 0",
+     [(F, """    return "@" in instance
+""", """    return instance.count("@") >= 1
+""")], ["C13", "C12", "C03"])
+
+brk("B107", "cli: files parsed with strict=False",
+    [(C, """                return json.load(file)
+""", """                return json.load(file, strict=False)
+""")], {"C19": "R19.7|"})
+
+
 # whole-tree transformation: every local and every positionally-passed parameter renamed, plain top-level functions
 # reordered, all eight modules re-emitted through ast.unparse (every line number and the whole layout change).
 # The repository's suite passes on the transformed tree (checked when the transformation was written).
